@@ -53,10 +53,10 @@ CHECKS = {
         "cases and exact greys over the reals, safe variants equal plain on valid input and return valid values on every numeric triple (A, z3); all 2^24 colours: definition within 1e-12, float ranges, lossless round trip "
         "(D; thorough complete, quick bounded). Inverse on a grid/random triples vs the clipped definition is bounded (E).",
    note=TB + "reals for B/A (pow/sqrt/atan2/sin/cos uninterpreted with listed identities); reading N1 for 'L=0 black' (achromatic corner only).", ref='§8 C10'),
- 'C11': dict(cat='other', tech='formula conformance and symmetry by ring-normal-form proof over the real AST (engine B) + exhaustive Lab numerics (engine D) + bounded pair checks incl. the 34 Sharma pairs (engine E)',
+ 'C11': dict(cat='other', tech='formula conformance and symmetry by ring-normal-form proof over the real AST (engine B) + range contracts for finite / non-negative / never raises (engine R: intervals, z3 nlsat on polynomial abstractions) + exhaustive Lab numerics (engine D) + bounded pair checks incl. the 34 Sharma pairs (engine E)',
    text="CIEDE2000: every constant/branch of the real routine equals the Sharma-Wu-Dalal formulation, symmetry, zero for identical colours, non-negativity proved over the reals; Lab pipeline proved against CIE with the library's "
-        "4-digit epsilon/kappa as declared tolerance class; Lab of all 2^24 colours within 0.05 (thorough: complete). Numeric agreement of the difference on pairs, finiteness and 'never raises' are bounded (engine E).",
-   note=TB + "transcendental functions are uninterpreted atoms with listed identities; 'never raises' not proved deductively.", ref='§8 C11'),
+        "4-digit epsilon/kappa as declared tolerance class; Lab of all 2^24 colours within 0.05 (thorough: complete). 'Finite, non-negative, never raises' proved over the reals by range contracts on the six functions of the pipeline (every radicand >= 0, every denominator excludes 0, exp cannot overflow; the final radicand by nlsat from |RT| <= 2). Numeric agreement of the difference on pairs is bounded (engine E).",
+   note=TB + "transcendental functions are uninterpreted atoms with listed identities; range contracts are over the reals (float rounding of an exactly-zero radicand is outside the proof).", ref='§8 C11'),
  'C06': dict(cat='proof', tech='exhaustive evaluation of the real formatter/parser on all 2^24 colours x 4 formats (engine D) + contract-based deductive verification of the format table (engine A)',
    text="round trip READ(format_color(c,f)) == CSS(format_color(c,f)) == c: thorough tier enumerates all 16,777,216 colours x {hex, rgb(), hsl(), tuple} with the real code, the "
         "library parser and an independent CSS Color 3 reference parser (complete, exhaustive:true); quick tier is a bounded sub-domain. format_color's table and make_readable's "
@@ -116,6 +116,8 @@ man = {
    {'name': 'B ringconf', 'path': 'vf/ring.py', 'serves_properties': ['C05', 'C07', 'C10', 'C11'], 'kind_free_text': 'code == published formula as commutative-ring normal forms over uninterpreted atoms; path matching in z3 QF_LIRA'},
    {'name': 'C effects', 'path': 'vf/effects.py', 'serves_properties': ['C08', 'C09', 'C15', 'C17', 'C18', 'C19'], 'kind_free_text': 'modular frame/effect checker and HTML provenance analysis over the real ASTs'},
    {'name': 'D fdx', 'path': 'vf/fdx.py', 'serves_properties': ['C01', 'C05', 'C06', 'C11'], 'kind_free_text': 'exhaustive evaluation of the real functions on finite colour domains (16 processes)'},
+   {'name': 'R ranges', 'path': 'vf/ranges.py', 'serves_properties': ['C05', 'C10', 'C11'], 'kind_free_text': 'range contracts: the real AST over intervals, callee by contract; division / sqrt / fractional power / exp safety obligations by interval, algebraic rule or z3 nlsat on the polynomial abstraction'},
+   {'name': 'A-rel relational', 'path': 'vf/relational.py', 'serves_properties': ['C16'], 'kind_free_text': '2-run product of the same real AST in lock-step, relational loop invariants, relational contracts of callees'},
    {'name': 'E rtc', 'path': 'vf/rtc.py', 'serves_properties': ['C01', 'C02', 'C03', 'C04', 'C06', 'C08', 'C09', 'C12', 'C16', 'C18'], 'kind_free_text': 'bounded run-time contracts on the real functions with independent oracles (never counted as proved)'},
  ],
  'checks': checks,
